@@ -17,7 +17,7 @@
 From Coq Require Import List ZArith Bool Arith.
 Import ListNotations.
 From DD Require Import Base.PyStr Base.Value Diff.Tree Diff.DiffModel Diff.DiffEmpty.
-From DD Require Hash.HashModel.
+From DD Require Hash.HashModel Hash.HashProofsMemo Diff.DiffMemo Diff.DiffMemoProofs.
 
 (* A structural copy gives an empty diff - for EVERY opcode oracle that tiles the
    lists (it need not be truthful), every item hash, every udiff, every threshold <= 1,
@@ -108,3 +108,62 @@ Theorem C02_empty_sound_refuted_hash :
   py_eqv k1_t1 k1_t2 = false.
 Proof. exact empty_sound_refuted_hash. Qed.
 Print Assumptions C02_empty_sound_refuted_hash.
+
+(* ---- the run-wide DeepHash table (self.hashes, keyed by ==) inside the model ----
+   Diff/DiffMemo.v [run_diff_m] threads the table through the traversal in the implementation's
+   order; it is what the correspondence check runs on inputs with ==-aliased set members.
+   Guard [no_alias (set_members ..)]: no two set / frozenset members of the inputs are == without
+   being identical (finding K2).  Under it the table is transparent ([diff_m] reports the levels
+   of [diff] with the pure item hash, as a multiset) and both clauses transfer. *)
+Theorem C02_table_transparent :
+  forall H o udiff ops skip excl c m t1 t2 p1 p2,
+    Hash.HashModel.ignore_iterable_order o = true ->
+    Hash.HashProofsMemo.memo_ok H o m -> wf t1 = true -> wf t2 = true ->
+    Hash.HashModel.no_alias (Hash.HashModel.matoms m ++ DiffMemoProofs.set_members t1 ++ DiffMemoProofs.set_members t2) = true ->
+    let r := DiffMemo.diff_m H o udiff ops skip excl c m t1 t2 p1 p2 in
+    Permutation.Permutation (fst (fst r)) (fst (diff (Hash.HashModel.hash_atom H o) udiff ops skip excl c t1 t2 p1 p2)) /\
+    Permutation.Permutation (snd (fst r)) (snd (diff (Hash.HashModel.hash_atom H o) udiff ops skip excl c t1 t2 p1 p2)) /\
+    Hash.HashProofsMemo.memo_ok H o (snd r) /\
+    incl (Hash.HashModel.matoms (snd r)) (Hash.HashModel.matoms m ++ DiffMemoProofs.set_members t1 ++ DiffMemoProofs.set_members t2).
+Proof. intros. apply DiffMemoProofs.diff_m_pure; assumption. Qed.
+Print Assumptions C02_table_transparent.
+
+Theorem C02_copy_empty_with_table :
+  forall H o udiff ops excl c t,
+    Hash.HashModel.ignore_iterable_order o = true ->
+    thr_num c <= thr_den c -> tiling ops -> wf t = true ->
+    Hash.HashModel.no_alias (DiffMemoProofs.set_members t) = true ->
+    fst (fst (DiffMemo.run_diff_m H o udiff ops (fun _ => false) excl c t t)) = [].
+Proof. intros. apply DiffMemoProofs.run_diff_m_copy_empty; assumption. Qed.
+Print Assumptions C02_copy_empty_with_table.
+
+Theorem C02_empty_sound_with_table :
+  forall H o udiff ops excl c t1 t2,
+    Hash.HashModel.ignore_iterable_order o = true ->
+    (forall s t, H s = H t -> s = t) -> Hash.HashModel.plain o = true -> valid_ops ops ->
+    wf t1 = true -> wf t2 = true ->
+    inputs_ok (keep_key c) Hash.HashModel.tag_safe_atom t1 = true ->
+    inputs_ok (keep_key c) Hash.HashModel.tag_safe_atom t2 = true ->
+    Hash.HashModel.no_alias (DiffMemoProofs.set_members t1 ++ DiffMemoProofs.set_members t2) = true ->
+    fst (fst (DiffMemo.run_diff_m H o udiff ops (fun _ => false) excl c t1 t2)) = [] -> py_eqv t1 t2 = true.
+Proof. intros. eapply DiffMemoProofs.run_diff_m_empty_sound; eassumption. Qed.
+Print Assumptions C02_empty_sound_with_table.
+
+(* without the alias guard the table is observable (finding K2; {1,'a'} vs {1.0,'a'}: the run with
+   the table reports nothing, like the implementation; the memo-free model reports two items) ... *)
+Theorem C02_table_transparent_refuted :
+  wf DiffSpecProofs.k2_t1 = true /\ wf DiffSpecProofs.k2_t2 = true /\
+  fst (fst (DiffMemo.run_diff_m Hash.HashModel.hexhash Hash.HashModel.default_opts (fun _ _ => []) one_block (fun _ => false) (fun _ => false) (mkCfg false 33 100 true) DiffSpecProofs.k2_t1 DiffSpecProofs.k2_t2)) = [] /\
+  length (fst (run_diff (Hash.HashModel.hash_atom Hash.HashModel.hexhash Hash.HashModel.default_opts) (fun _ _ => []) one_block (fun _ => false) (fun _ => false) (mkCfg false 33 100 true) DiffSpecProofs.k2_t1 DiffSpecProofs.k2_t2)) = 2.
+Proof. exact DiffMemoProofs.diff_m_pure_refuted_alias. Qed.
+Print Assumptions C02_table_transparent_refuted.
+
+(* ... and so is the order in which _diff_dict visits the common keys (t2's key order):
+   {'x':{1.0},'y':{1}} vs {'y':{'int:1'},'x':{1.0}} gives {} but vs {'x':{1.0},'y':{'int:1'}} two items
+   (both replayed on the implementation by harness/props/c02.py) *)
+Theorem C02_visiting_order_observable :
+  value_eqb DiffMemoProofs.ord_t2_yx DiffMemoProofs.ord_t2_xy = false /\ py_eqv DiffMemoProofs.ord_t2_yx DiffMemoProofs.ord_t2_xy = true /\
+  fst (fst (DiffMemo.run_diff_m Hash.HashModel.hexhash Hash.HashModel.default_opts (fun _ _ => []) one_block (fun _ => false) (fun _ => false) (mkCfg false 33 100 true) DiffMemoProofs.ord_t1 DiffMemoProofs.ord_t2_yx)) = [] /\
+  length (fst (fst (DiffMemo.run_diff_m Hash.HashModel.hexhash Hash.HashModel.default_opts (fun _ _ => []) one_block (fun _ => false) (fun _ => false) (mkCfg false 33 100 true) DiffMemoProofs.ord_t1 DiffMemoProofs.ord_t2_xy))) = 2.
+Proof. exact DiffMemoProofs.visiting_order_observable. Qed.
+Print Assumptions C02_visiting_order_observable.
